@@ -68,6 +68,14 @@ class Check:
         self.parts.append(summary)
         return results
 
+    def run_random(self, aspects, n_quick=25, n_thorough=250):
+        """second line of defence: generated programs over the whole feature set, weighted towards this property's constructs"""
+        from families import randprog
+        n = n_quick if self.tier == 'quick' else n_thorough
+        ts = randprog.templates(self.tier, self.seed, n, self.id)
+        self.bounds['random_programs'] = '%d generated programs (kind-tracking grammar over all documented constructs, weighted towards %s; VERIF_SEED), integer / boolean leaves symbolic' % (n, randprog.EMPH.get(self.id, 'nothing in particular'))
+        return self.run_family('random-programs', ts, aspects, lambda v: 'randprog:%s:%s:%s' % (v.get('template'), v['aspect'], v['ref']), par_templates=8, par_paths=2, timeout=300)
+
     def run_jobs(self, name, jobs, par_jobs=8, par_paths=2, timeout=600):
         """jobs: list of {'name', 'path_fn': f(M)->obs, 'post': g(rows, stats, binary, workdir)->result dict}; result dict keys as in
         family.run_template (paths, stats, replayed, replay_ok, violations, inconclusive, silent, cases, ref_kinds, samples)"""
